@@ -802,6 +802,7 @@ type job struct {
 
 	bodystall *bodyStallCase
 	late      *lateCase
+	crowd     *crowdCase
 }
 
 func (e *env) do(ctx *core.Ctx, j job) {
@@ -830,6 +831,8 @@ func (e *env) do(ctx *core.Ctx, j job) {
 		e.runBodyStall(ctx, j.bodystall)
 	case j.late != nil:
 		e.runLate(ctx, j.late)
+	case j.crowd != nil:
+		e.runCrowd(ctx, j.crowd)
 	}
 }
 
@@ -926,6 +929,9 @@ func Run(ctx *core.Ctx) {
 		"stalls inside a request body with ReadTimeout set on every stacking (Content-Length and chunked, k framed body bytes incl. 0, also after served requests and behind a pipelined head): 504 at t0 + ReadTimeout, closed one idle timeout later (F49); " +
 		"the upper slack of every judged close is below the limit itself (a close after two periods of the limit is late); plans with limits of 600-800 ms per stacking: every stall point held for 1.5 periods " +
 		"(closed by 1.4), then the bytes that would have been progress (rest of the header / hello / head, a complete request, a ClientHello after the intercepted CONNECT's 200) are sent and must be answered with nothing; " +
+		"crowds per stacking with limits of 2.0-2.4 s: N ∈ {8, 64, 4*GOMAXPROCS+8, 8*GOMAXPROCS+32, max(300, 12*GOMAXPROCS)} peers stalled at once in ONE phase (in / before the PROXY header, in / before the listener's ClientHello, " +
+		"idle on the fresh connection and inside the TLS / intercepted session, in a request head, in a request body, silent after CONNECT 200, in the tunnel's ClientHello) or spread over all of them, a well-behaved client " +
+		"(PROXY header, TLS, CONNECT + intercepted handshake as the stacking asks) served within half the shortest limit and every peer closed at its own limit (quick: every phase with one N ≥ 4*GOMAXPROCS+8 and one mixed crowd of the largest N; thorough: the whole grid); " +
 		"every case is non-trivial; distinct = distinct (configuration, case parameters)")
 	ctx.Assume("wall clock sampled: close instants and probe latencies are measured on the monotonic clock of the harness process; lower side sharp (1 ms), upper side with slack")
 	for _, c := range core.LoadCorpus(ctx.Root, "C15") {
@@ -1013,8 +1019,21 @@ func Run(ctx *core.Ctx) {
 			plans = append(plans, plan{conf, genLateJobs(ctx, r, conf, func(kind string, i int) string { return fmt.Sprintf("%s-%s%d", tag, kind, i) })})
 		}
 	}
+	// crowds (crowd.go): every stacking with limits of 2.0-2.4 s, every phase of the stacking with far more
+	// simultaneously stalled peers than any fixed stock could serve, a well-behaved client next to them
+	var crowds []plan
+	for _, st := range stacks {
+		r := ctx.Rng.Sub()
+		conf := Conf{Stack: st, L: genCrowdLimits(r)}
+		tag := "crowd-" + st
+		crowds = append(crowds, plan{conf, genCrowdJobs(ctx, r, conf, func(kind string, i int) string { return fmt.Sprintf("%s-%s%d", tag, kind, i) })})
+	}
+	if len(crowds[0].jobs) > 0 {
+		ctx.Sample(crowds[0].jobs[0].crowd)
+	}
+	plans = append(crowds, plans...) // the longest plans are started first
 	for i, p := range plans {
-		if i < 3 && len(p.jobs) > 0 {
+		if i >= len(crowds) && i < len(crowds)+3 && len(p.jobs) > 0 {
 			j := p.jobs[0]
 			switch {
 			case j.stall != nil:
@@ -1044,18 +1063,24 @@ func Run(ctx *core.Ctx) {
 			}
 		}
 	}
-	sem := make(chan struct{}, 12)
-	var wg sync.WaitGroup
-	for _, p := range plans {
-		wg.Add(1)
-		sem <- struct{}{}
-		go func() {
-			defer wg.Done()
-			defer func() { <-sem }()
-			runPlan(ctx, p.conf, p.jobs)
-		}()
+	// the crowds first and alone: setting up thousands of peers is a burst of work in this process (the proxies
+	// run in it), which the cases with limits of 150-400 ms must not be measured next to
+	runAll := func(ps []plan, workers int) {
+		sem := make(chan struct{}, 12)
+		var wg sync.WaitGroup
+		for _, p := range ps {
+			wg.Add(1)
+			sem <- struct{}{}
+			go func() {
+				defer wg.Done()
+				defer func() { <-sem }()
+				runPlan(ctx, p.conf, p.jobs, workers)
+			}()
+		}
+		wg.Wait()
 	}
-	wg.Wait()
+	runAll(plans[:len(crowds)], 10)
+	runAll(plans[len(crowds):], 5)
 	reportDeltas(ctx)
 }
 
@@ -1070,7 +1095,7 @@ func (e *env) warmup() error {
 	return err
 }
 
-func runPlan(ctx *core.Ctx, conf Conf, jobs []job) {
+func runPlan(ctx *core.Ctx, conf Conf, jobs []job, workers int) {
 	e, err := newEnv(ctx, conf)
 	if err != nil {
 		ctx.Crash("proxy starts with a valid configuration", "", conf, err.Error())
@@ -1081,7 +1106,7 @@ func runPlan(ctx *core.Ctx, conf Conf, jobs []job) {
 		ctx.SpecFail(clauseServed, "", map[string]any{"kind": "warmup", "conf": conf}, err.Error(), "")
 		return
 	}
-	const workers = 5 // every stacking alike: no case can hold up the listener for another
+	// every stacking alike: no case can hold up the listener for another
 	ch := make(chan job)
 	var wg sync.WaitGroup
 	for w := 0; w < workers; w++ {
@@ -1106,6 +1131,7 @@ func Replay(ctx *core.Ctx, raw json.RawMessage) {
 		Kind  string          `json:"kind"`
 		Conf  Conf            `json:"conf"`
 		Group json.RawMessage `json:"group"`
+		Crowd json.RawMessage `json:"crowd"`
 	}
 	if err := json.Unmarshal(raw, &k); err != nil {
 		core.Fatalf("C15 replay: %v", err)
@@ -1114,8 +1140,15 @@ func Replay(ctx *core.Ctx, raw json.RawMessage) {
 		Replay(ctx, k.Group)
 		return
 	}
+	if k.Kind == "crowd-peer" { // a finding about one peer of a crowd: re-run the crowd
+		Replay(ctx, k.Crowd)
+		return
+	}
 	var j job
 	switch k.Kind {
+	case "crowd":
+		j.crowd = &crowdCase{}
+		json.Unmarshal(raw, j.crowd)
 	case "stall":
 		j.stall = &stallCase{}
 		json.Unmarshal(raw, j.stall)
